@@ -1,3 +1,7 @@
+def _n(x):
+    return x if isinstance(x, int) else len(x or [])
+
+
 SPEC = {
     "id": "C15",
     "level_text": "Theorems (Coq, all route dumps of any length): with the ::/0 wildcard the advertised routes are exactly the IPv6 non-/128 routes of the dump that are not contained in a strictly shorter IPv6 route of the dump, without duplicates, strictly ascending by address, a function of the SET of dumped routes only (permutation- and multiplicity-invariant); every dumped IPv6 non-host route is covered by an advertised one; for a canonical dump (no host bits, as the kernel guarantees) no two advertised routes overlap; every option carries the stanza's preference and (C16) lifetime; a dump failure is an error. The executable model of Route.current/apply/Apply (code as repaired by a252649) is tied to the real code by differential runs on injected dumps.",
@@ -6,14 +10,16 @@ SPEC = {
                 # the rtnetlink layer that produces the loopback route dump (shared with C13)
                 {"pkg": "internal/system", "test": "TestVerifC13Addresser", "corr_module": "Corr.C13sys"},
                 # real parallelism: wildcard expansions of several interfaces at the same time
-                {"pkg": "internal/plugin", "test": "TestVerifParallelApply", "arch386": []}],
+                {"pkg": "internal/plugin", "test": "TestVerifParallelApply", "arch386": []},
+                # the whole RA: a wildcard next to static stanzas that share a base address with its expansion at another length
+                {"pkg": "internal/config", "test": "TestVerifC01", "corr_module": "Corr.C01", "env": {"VERIF_C01_SECTION": "fixed"}, "arch386": []}],
     "rule": "bounded-exhaustive: every sequence with repetition of length <= 3 (quick) / <= 4 (thorough) over a 14-entry pool "
             "(= all subsets x all permutations, plus all multiplicities) with /32 > /48 > /64 at the same base, /48 and /64 at other "
             "bases, /128s at a covered base and elsewhere, ::/0, fd00::/8 > /64, IPv4 routes incl. 0.0.0.0/0, one non-canonical "
             "entry; random dumps up to length 40 (same-base chains, exact duplicates, boundary lengths 0/1/47/48/49/63/64/65/127/128, "
             "25% with non-canonical entries); dump failure and unprepared plugin; 30% deprecated stanzas (clock before the epoch, inside the countdown, after expiry) and in half of the cases a clock that advances on every reading within one Apply (1 ns / 1 ms / 1 s / 7 s / half the lifetime, so a seconds boundary or the expiry falls between two readings): all options must carry the lifetime of the first reading. Non-trivial = at least two dumped routes or a "
             "failing source; distinct by canonical input.",
-    "nontrivial": lambda c: len(c.get("input", {}).get("routes") or []) >= 2 or c.get("input", {}).get("source") != "ok",
+    "nontrivial": lambda c: _n(c.get("input", {}).get("routes")) >= 2 or c.get("input", {}).get("source") != "ok",
     "trusted": ["net/netip Prefix.Contains (false across families), IsSingleIP, Addr.Compare are modelled by Base.IP.contains, bits = 128 and numeric order",
                 "system.Addresser.LoopbackRoutes (rtnetlink dump) enters the model as the input list"],
     "assumptions": ["C15_no_overlap assumes a canonical dump (route address has no bits below its length), which the kernel guarantees; "
